@@ -61,6 +61,11 @@ termination_by es => Val.we es
 decreasing_by all_goals (simp_wf; simp only [Val.w, Val.wl, Val.we] at *; omega)
 end
 
+/-- the string of a string key (member name of the inferred Struct) -/
+def keyName : Val → String
+  | .str s => s
+  | _ => ""
+
 def isStrKey : Val → Bool
   | .str _ => true
   | _ => false
@@ -100,7 +105,7 @@ decreasing_by all_goals (simp_wf; simp only [Val.w, Val.wl, Val.we] at *; omega)
 def dtypeM : List (Val × Val) → List Member
   | [] => []
   | (k, v) :: es =>
-      ((match k with | .str s => s | _ => ""), asg cfg sfh (dtype v) .undef, dtype v) :: dtypeM es
+      (keyName k, asg cfg sfh (dtype v) .undef, dtype v) :: dtypeM es
 termination_by es => Val.we es
 decreasing_by all_goals (simp_wf; simp only [Val.w, Val.wl, Val.we] at *; omega)
 end
